@@ -372,7 +372,10 @@ func (sc *serverConn) readLoop() (err error) {
 				return errConnClosed
 			}
 
-			sc.reader <- fr
+			if !sc.forward(fr) {
+				return errConnClosed
+			}
+
 			continue
 		}
 
@@ -384,7 +387,10 @@ func (sc *serverConn) readLoop() (err error) {
 				sc.handleSettings(st)
 				// forward to handleStreams so the INITIAL_WINDOW_SIZE delta is
 				// applied to open streams in frame order.
-				sc.reader <- fr
+				if !sc.forward(fr) {
+					return errConnClosed
+				}
+
 				continue
 			}
 		case FrameWindowUpdate:
@@ -396,7 +402,10 @@ func (sc *serverConn) readLoop() (err error) {
 			}
 
 			// the actual window bookkeeping happens in handleStreams.
-			sc.reader <- fr
+			if !sc.forward(fr) {
+				return errConnClosed
+			}
+
 			continue
 		case FramePing:
 			ping := fr.Body().(*Ping)
@@ -420,6 +429,20 @@ func (sc *serverConn) readLoop() (err error) {
 	}
 
 	return err
+}
+
+// forward hands a frame to the stream loop. It reports false, and keeps the
+// frame, when the stream loop has stopped: after a connection error it ends
+// without waiting for the read loop, and a peer that keeps sending would
+// otherwise fill sc.reader and park the read loop on it for good.
+func (sc *serverConn) forward(fr *FrameHeader) bool {
+	select {
+	case sc.reader <- fr:
+		return true
+	case <-sc.handlerStop:
+		ReleaseFrameHeader(fr)
+		return false
+	}
 }
 
 // handleStreams handles everything related to the streams
